@@ -44,9 +44,10 @@ def scenario(task):
             # an output on the grid is 0*prev + 1*curr: exact in IEEE arithmetic for finite values
             if p is not q and dag.ieee_simplify(p, smemo) is not dag.ieee_simplify(q, smemo):
                 diffs.append((i, k))
-                r, _ = Zc.equal(p, q)
-                if r != 'unsat':
-                    real_equal = False
+                if pass_extra and len(diffs) == 1:
+                    r, _ = Zc.equal(p, q)
+                    if r != 'unsat':
+                        real_equal = False
     bits = all(torch.equal(x.elem, y.elem) for x, y in zip(full, chunk_out))
     return dict(task=task, diffs=diffs[:5], ndiff=len(diffs), real_equal=real_equal, bits=bits, queries=Zc.queries, solver_s=Zc.solver_s)
 
@@ -83,10 +84,11 @@ def tasks_for(tier):
     cuts2 = (0.25, 0.5)
     cuts3 = (0.25, 0.375, 0.625)
     for st, method, nt, opts in e1.all_forward_configs():
-        T.append((st, method, nt, opts, 1, 2, 1, cuts2, 0.125, True))
+        T.append((st, method, nt, opts, 1, 2, 1, cuts3, 0.125, True))
     if tier != 'quick':
         for st, method, nt, opts in e1.all_forward_configs():
-            T.append((st, method, nt, opts, 2, 2, 2, cuts3, 0.125, True))
+            T.append((st, method, nt, opts, 2, 2, 2, cuts2, 0.125, True))
+            T.append((st, method, nt, opts, 1, 2, 1, (0.125, 0.25, 0.5, 0.75), 0.125, True))
     return T
 
 
@@ -94,7 +96,7 @@ def run(ctx):
     ctx.fn('sdeint (extra=True / extra_solver_state)', 'parse_return', 'BaseSDESolver.integrate', 'every solver step / init_extra_solver_state',
            'ReversibleHeun.step (extra state)')
     ctx.stubs.append('Brownian motion: deterministic stub keyed by the queried interval (the same object serves all chunks)')
-    ctx.bounds = {'chunks': '2 (quick) / 3, restart points on the dt grid (dyadic dt = 1/8, so grid times are exact floats)',
+    ctx.bounds = {'chunks': '3 (quick) / 2-4, restart points on the dt grid (dyadic dt = 1/8, so grid times are exact floats)',
                   'steps': '4-5', 'dims': 'd=1 (quick) / d=2, batch 2', 'grid part': 'symbolic t0, dt, clipped last step, k1,k2 <= 2-3 steps per chunk'}
     ctx.assumptions += ['identical float-operation DAG => bit-identical results (IEEE determinism)', 'DAGs are compared modulo 1*x, 0*x, x+0 (exact for finite floats; signed zeros compare equal): an output at a grid time is computed as 0*prev + 1*curr']
     ctx.outside += ['float drift between the accumulated current time and a user-computed restart time (non-dyadic dt)']
